@@ -106,12 +106,16 @@ def cases(draw, mode, max_leaves, str_max, deep=False):
     ch = W.Drawn(draw)
     bufs = sorted(set(draw(st.lists(st.sampled_from(BUFS), min_size=3, max_size=3))))
     if mode == "stream":
-        v = [v]
+        bare = draw(st.integers(0, 3)) == 0 and not (isinstance(v, tuple) and v[:1] == ("F",))
+        if not bare:
+            v = [v]
         toks = []
         W.tokens(ch, v, toks)
-        data = W.join(ch, toks, lead=True, trail=True)
+        # bare: the object itself is the whole data and the data ends with its last byte (e.g. the last member of an
+        # object stream): a number, name or keyword is completed by the end of the data
+        data = W.join(ch, toks, lead=True, trail=not bare or draw(st.booleans()))
         return {"mode": mode, "value": v, "data": data, "spelled": data, "bufsizes": bufs,
-                "features": sorted(ch.features)}
+                "features": sorted(ch.features | ({"bare-at-end-of-data"} if bare else set()))}
     toks = [W._tok(b"obj")]
     W.tokens(ch, v, toks)
     toks.append(W._tok(b"endobj"))
